@@ -120,28 +120,37 @@ def check(model: Model, run: Run) -> None:
     run.ob("L4-returns-the-decode-list", ok)
     if not ok:
         run.fail(Finding("L4-returns-the-decode-list", fi.qualname, norm(final) if final else "no final return", "receive does not end by returning the list the decode loop fills", model.loc(fi.module, final or fi.node)))
-    if ret_name:
-        for n in walk_no_nested(fi.node):
-            if isinstance(n, ast.Call) and isinstance(n.func, ast.Attribute) and isinstance(n.func.value, ast.Name) and n.func.value.id == ret_name:
+    from ..regions import decode_region, region_call_returning_list
+    region = decode_region(model)
+    run.coverage["decode_region"] = [r.fi.qualname for r in region]
+    n_apps = 0
+    for rf in region:
+        f2 = rf.fi
+        names = set(rf.lists) | ({ret_name} if (ret_name and f2 is fi) else set())
+        if not names:
+            continue
+        for n in walk_no_nested(f2.node):
+            if isinstance(n, ast.Call) and isinstance(n.func, ast.Attribute) and isinstance(n.func.value, ast.Name) and n.func.value.id in names:
                 ok = n.func.attr == "append" and len(n.args) == 1
-                run.ob("L4-append-only", ok, {"call": norm(n)})
+                n_apps += ok
+                run.ob("L4-append-only", ok, {"call": norm(n), "function": f2.name})
                 if not ok:
-                    run.fail(Finding("L4-append-only", fi.qualname, norm(n), "the list of decoded messages is modified other than by appending in decode order", model.loc(fi.module, n)))
-            if isinstance(n, ast.For) and isinstance(n.iter, ast.Name) and n.iter.id == ret_name:
-                uses = [x for s in n.body for x in ast.walk(s) if isinstance(x, ast.Name) and x.id == ret_name]
+                    run.fail(Finding("L4-append-only", f2.qualname, norm(n), "the list of decoded messages is modified other than by appending in decode order", model.loc(f2.module, n)))
+            if isinstance(n, ast.For) and isinstance(n.iter, ast.Name) and n.iter.id in names:
+                uses = [x for s_ in n.body for x in ast.walk(s_) if isinstance(x, ast.Name) and x.id in names]
                 ok = not uses
                 run.ob("L4-processing-loop-independent", ok)
                 if not ok:
-                    run.fail(Finding("L4-processing-loop-independent", fi.qualname, f"for over {ret_name} uses it in its body", "the processing loop reads or changes the list it iterates", model.loc(fi.module, n)))
-            if isinstance(n, (ast.Assign, ast.AugAssign)) and any(isinstance(t, ast.Name) and t.id == ret_name for t in (n.targets if isinstance(n, ast.Assign) else [n.target])):
+                    run.fail(Finding("L4-processing-loop-independent", f2.qualname, f"for over {n.iter.id} uses it in its body", "the processing loop reads or changes the list it iterates", model.loc(f2.module, n)))
+            if isinstance(n, (ast.Assign, ast.AugAssign, ast.AnnAssign)) and any(isinstance(t, ast.Name) and t.id in names for t in (n.targets if isinstance(n, ast.Assign) else [n.target])):
                 v = n.value
-                ok = isinstance(v, ast.List) and not v.elts and isinstance(n, ast.Assign)
+                ok = v is None or (not isinstance(n, ast.AugAssign) and ((isinstance(v, ast.List) and not v.elts) or
+                                   (isinstance(v, ast.Call) and region_call_returning_list(model, region, f2, v))))
                 run.ob("L4-append-only", ok)
                 if not ok:
-                    run.fail(Finding("L4-append-only", fi.qualname, norm(n), "the list of decoded messages is rebound", model.loc(fi.module, n)))
+                    run.fail(Finding("L4-append-only", f2.qualname, norm(n), "the list of decoded messages is rebound", model.loc(f2.module, n)))
     # appended value is the result of unpack_ldap_message in the same iteration
-    apps = [n for n in walk_no_nested(fi.node) if isinstance(n, ast.Call) and isinstance(n.func, ast.Attribute) and n.func.attr == "append" and isinstance(n.func.value, ast.Name) and n.func.value.id == ret_name]
-    run.floor("decode-order appends", len(apps), 1)
+    run.floor("decode-order appends", n_apps, 1)
     # ---- L5 copy-out ------------------------------------------------------------
     rc = model.cls(READER)
     n5 = 0
